@@ -100,3 +100,16 @@ func init() {
 		return c.ErrFlow(in, in)
 	}}
 }
+
+func init() {
+	Props["XBITS"] = PropDef{Explanation: "debug", Run: func(c *Ctx) []core.Ob {
+		return c.BitFields("net/packet", "level", "save/region", "nbt", "nbt/dynbt", "net", "server", "bot", "chat", "save", "level/block", "server/command", "net/CFB8", "offline", "yggdrasil")
+	}}
+}
+
+func init() {
+	Props["XSTRIDX"] = PropDef{Explanation: "debug", Run: func(c *Ctx) []core.Ob {
+		obs := c.StringIndexGuards(func(*ssa.Function) bool { return true })
+		return append(obs, c.LenMinusGuards(func(*ssa.Function) bool { return true })...)
+	}}
+}
